@@ -483,6 +483,8 @@ _SYS_FLAGS = {b'\\answered', b'\\flagged', b'\\deleted', b'\\seen',
 def _flag_list(r: Resp, v: Any, perm: bool = False) -> list[bytes]:
     out: list[bytes] = []
     for item in v[1]:
+        if item[0] == 'nil':
+            item = ('atom', b'NIL')   # NIL is a syntactically valid keyword
         if item[0] != 'atom' and item[0] != 'num':
             r.err('flag-not-atom', repr(item))
             continue
